@@ -34,6 +34,8 @@ type Frame struct {
 	Stream      int16
 	Op          byte
 	Body        []byte // exactly as on the wire (compressed if FlagCompressed)
+	// ForceV3Layout renders a 9-byte header even for version bytes below 3 (hostile input)
+	ForceV3Layout bool `json:"-"`
 }
 
 func (f *Frame) Version() primitive.ProtocolVersion {
@@ -41,7 +43,15 @@ func (f *Frame) Version() primitive.ProtocolVersion {
 }
 func (f *Frame) IsResponse() bool { return f.VersionByte&0x80 != 0 }
 
+// Bytes renders the frame. Protocol versions 1 and 2 have an 8-byte header with a one-byte stream id.
 func (f *Frame) Bytes() []byte {
+	if f.VersionByte&0x7f < 3 && !f.ForceV3Layout {
+		out := make([]byte, 8+len(f.Body))
+		out[0], out[1], out[2], out[3] = f.VersionByte, f.Flags, byte(f.Stream), f.Op
+		binary.BigEndian.PutUint32(out[4:], uint32(len(f.Body)))
+		copy(out[8:], f.Body)
+		return out
+	}
 	out := make([]byte, 9+len(f.Body))
 	out[0], out[1] = f.VersionByte, f.Flags
 	binary.BigEndian.PutUint16(out[2:], uint16(f.Stream))
@@ -56,14 +66,28 @@ const MaxBody = 64 << 20
 
 func Read(r io.Reader) (*Frame, error) {
 	var h [9]byte
-	if _, err := io.ReadFull(r, h[:]); err != nil {
+	if _, err := io.ReadFull(r, h[:1]); err != nil {
 		return nil, err
 	}
-	n := binary.BigEndian.Uint32(h[5:])
+	var f *Frame
+	var n uint32
+	if h[0]&0x7f < 3 { // v1/v2 layout: version flags stream(1) opcode length(4)
+		if _, err := io.ReadFull(r, h[1:8]); err != nil {
+			return nil, err
+		}
+		n = binary.BigEndian.Uint32(h[4:8])
+		f = &Frame{VersionByte: h[0], Flags: h[1], Stream: int16(int8(h[2])), Op: h[3]}
+	} else {
+		if _, err := io.ReadFull(r, h[1:9]); err != nil {
+			return nil, err
+		}
+		n = binary.BigEndian.Uint32(h[5:9])
+		f = &Frame{VersionByte: h[0], Flags: h[1], Stream: int16(binary.BigEndian.Uint16(h[2:])), Op: h[4]}
+	}
 	if n > MaxBody {
 		return nil, fmt.Errorf("frame declares %d body bytes", n)
 	}
-	f := &Frame{VersionByte: h[0], Flags: h[1], Stream: int16(binary.BigEndian.Uint16(h[2:])), Op: h[4], Body: make([]byte, n)}
+	f.Body = make([]byte, n)
 	if _, err := io.ReadFull(r, f.Body); err != nil {
 		return nil, err
 	}
